@@ -11,7 +11,7 @@ VAL = {'C': 4, 'N': 3, 'O': 2, 'S': 2, 'P': 3, 'F': 1, 'Cl': 1, 'Br': 1}
 SYM = {0: '.', 1: '', 2: '=', 3: '#', 4: '$', 1.5: ''}
 
 
-def rnd_mol(rng, n, aromatic_p=0.3, charged_p=0.1, pyrrole_p=0.0, biaryl_p=0.0):
+def rnd_mol(rng, n, aromatic_p=0.3, charged_p=0.1, pyrrole_p=0.0, biaryl_p=0.0, thio_p=0.0):
     """valence-respecting random molecule over the organic subset.
     nodes: element, charge, aromatic, h (hydrogens required); edges: order (1,2,3, 1.5 in aromatic rings)"""
     g = nx.Graph()
@@ -46,8 +46,8 @@ def rnd_mol(rng, n, aromatic_p=0.3, charged_p=0.1, pyrrole_p=0.0, biaryl_p=0.0):
         for r in ns[1:]:
             g.nodes[r]['element'] = 'C'
             free[r] = 4
-        for a, b in zip(ring, ring[1:] + ring[:1]):
-            g.add_edge(a, b, order=1.5)
+        for i, (a, b) in enumerate(zip(ring, ring[1:] + ring[:1])):
+            g.add_edge(a, b, order=1.5, kek=2 if i % 2 == 0 else 1)
         for r in ring:
             g.nodes[r]['aromatic'] = True
             free[r] -= 3
@@ -65,6 +65,15 @@ def rnd_mol(rng, n, aromatic_p=0.3, charged_p=0.1, pyrrole_p=0.0, biaryl_p=0.0):
             g.add_edge(a, ring2[0], order=1)
             free[a] -= 1
             free[ring2[0]] -= 1
+        if thio_p and rng.random() < thio_p:
+            # a thioether on the ring: written 'Sc…' whenever the sulfur comes first ('Sc' is also an element symbol)
+            cs = [r for r in ring if g.nodes[r]['element'] == 'C' and free[r] >= 1]
+            if cs:
+                a = rng.choice(cs)
+                b = add('S')
+                g.add_edge(a, b, order=1)
+                free[a] -= 1
+                free[b] -= 1
     else:
         add('C')
     while len(g) < n:
@@ -109,7 +118,8 @@ WEIGHT_TEXTS = ['0', '0.5', 'w=2', 'w=0', '0.0', '1', 'w=0.25;tag=t']
 
 
 def low(d):
-    return bool(d['aromatic'] or d.get('lower'))
+    # (an aromatic atom of a ring written in Kekule form is upper case)
+    return bool((d['aromatic'] and not d.get('kekule')) or d.get('lower'))
 
 
 def atom_str(d, anno=None):
@@ -153,8 +163,10 @@ def render_frag(rng, g, nodes, desc, atom_text=None, anno_p=0.0):
     digits = list(range(1, 10))
     rng.shuffle(digits)
     rid = {}
+    # now and then all ring closures of a fragment are written with two-digit markers ('%10', '%11', ...)
+    two_digit = bool(ring_edges) and not atom_text and rng.random() < 0.15
     for k, e in enumerate(ring_edges):
-        rid[e] = digits[k] if k < 9 else 10 + k
+        rid[e] = (10 + k) if two_digit else (digits[k] if k < 9 else 10 + k)
 
     def mark(r):
         return str(r) if r < 10 else '%%%d' % r
@@ -173,6 +185,8 @@ def render_frag(rng, g, nodes, desc, atom_text=None, anno_p=0.0):
         for e in ring_edges:
             if u in e:
                 o = g.edges[tuple(e)]['order']
+                if 'kek' in g.edges[tuple(e)] and g.nodes[u].get('kekule'):
+                    o = g.edges[tuple(e)]['kek']
                 first = rid[e] not in opened
                 if first:
                     opened.add(rid[e])
@@ -183,10 +197,11 @@ def render_frag(rng, g, nodes, desc, atom_text=None, anno_p=0.0):
         d = dstr(u)
         kids = tree[u]
         # descriptors directly after the atom (before or after its ring digits) or after some of its branches
-        late = len(kids) > 0 and bool(d) and rng.random() < 0.3
+        # (an atom with two or more branches gets its descriptors behind them more often: 'X(..)(..)[$]')
+        late = len(kids) > 0 and bool(d) and rng.random() < (0.6 if len(kids) >= 2 else 0.3)
         bracket_all = late and rng.random() < 0.4
         nbr = len(kids) if bracket_all else len(kids) - 1
-        after = rng.randint(1, nbr) if (late and nbr >= 1) else None
+        after = (nbr if rng.random() < 0.5 else rng.randint(1, nbr)) if (late and nbr >= 1) else None
         if u == start and d and after is None and rng.random() < 0.25:
             # the first atom's descriptors written in front of it: '[$]=C...' (the order symbol follows the descriptor)
             s = ''.join('[' + txt + ']' + SYM[o] for (txt, o) in desc.get(u, [])) + s + rs
@@ -204,6 +219,8 @@ def render_frag(rng, g, nodes, desc, atom_text=None, anno_p=0.0):
             s += '([H;%s])' % rng.choice(['0', '0.5', 'w=0', '2'])
         for i, v in enumerate(kids):
             o = g.edges[u, v]['order']
+            if 'kek' in g.edges[u, v] and g.nodes[u].get('kekule'):
+                o = g.edges[u, v]['kek']            # ring written in Kekule form: alternating single / double bonds
             sym = SYM[o]
             if g.edges[u, v].get('pyrrole_ring'):
                 sym = ''
@@ -383,14 +400,25 @@ def graph_to_json(g):
 
 
 def cut_case(rng, nmin=3, nmax=12, share_p=0.0, virtual=0, aromatic_p=0.25, label_p=1.0,
-             kinds=('$', '><'), anno_p=0.0, pyrrole_p=0.0, biaryl_p=0.0):
+             kinds=('$', '><'), anno_p=0.0, pyrrole_p=0.0, biaryl_p=0.0, kekule_p=0.0, thio_p=0.0):
     """one C01-style case: a molecule, the uncut description and a cut description"""
     while True:
-        g = rnd_mol(rng, rng.randint(nmin, nmax), aromatic_p=aromatic_p, pyrrole_p=pyrrole_p, biaryl_p=biaryl_p)
+        g = rnd_mol(rng, rng.randint(nmin, nmax), aromatic_p=aromatic_p, pyrrole_p=pyrrole_p, biaryl_p=biaryl_p, thio_p=thio_p)
+        kekule = False
+        if kekule_p and rng.random() < kekule_p and not biaryl_p and not share_p:
+            ring = [n for n, d in g.nodes(data=True) if d['aromatic'] and any('kek' in g.edges[n, m] for m in g[n])]
+            # a six-ring written with alternating single and double bonds; no lower-case atom anywhere
+            if len(ring) == 6 and all(g.nodes[n]['element'] in ('C', 'N') for n in ring) and \
+                    not any(d.get('lower') or d.get('pyrrole') for _, d in g.nodes(data=True)):
+                for n in ring:
+                    g.nodes[n]['kekule'] = True
+                kekule = True
         nf = rng.randint(1, min(5, len(g)))
         base, frag_text, part, nshared = cut_description(rng, g, nf, kinds=kinds, share_p=share_p, label_p=label_p, anno_p=anno_p)
         if base.number_of_edges() and max(o for *_, o in base.edges(data='order')) > 4:
             continue
+        if kekule and any(part[a] != part[b] for a, b, d in g.edges(data=True) if 'kek' in d):
+            continue          # the ring itself is not cut when it is written in Kekule form
         break
     names = {i: 'F%d' % i for i in range(nf)}
     base_str, appearance = render_base(rng, base, names, virtual=virtual)
@@ -398,7 +426,7 @@ def cut_case(rng, nmin=3, nmax=12, share_p=0.0, virtual=0, aromatic_p=0.25, labe
     whole = '{[#M]}.{#M=' + render_frag(rng, g, list(g), {}) + '}'
     return {'kind': 'cut', 'shared_kinds': sorted(set(cut_description.last_shared_kinds)),
             'pyrrole_ring_cut': cut_description.last_pyrrole_cut, 'has_pyrrole': any(d.get('pyrrole') for _, d in g.nodes(data=True)),
-            's': base_str + '.{' + frags + '}', 'whole': whole,
+            's': base_str + '.{' + frags + '}', 'whole': whole, 'kekule': kekule,
             'nfrag': nf, 'nshared': nshared, 'natoms': len(g), 'virtual': virtual,
             'mol': {'n': [[k, d['element'], d['charge'], d['h'], d['aromatic']] for k, d in g.nodes(data=True)],
                     'e': [[a, b, o] for a, b, o in g.edges(data='order')]},
